@@ -213,6 +213,14 @@ another `Destroy` (this is how `Pool.sync` retries). -/
 theorem shutdown_unguarded : shutdownSkeleton =
     ["go", "go", "func {", "call wkr.instance.Destroy => err", "if err != nil {", "return", "}", "}"] := rfl
 
+/-- `startContainer`'s completion closure is guarded: it leaves alone a runner that is no longer the one
+in `wkr.starting` (adopted or dropped meanwhile) — `C15.RW.startDone`; fix of finding F15a. -/
+theorem startContainer_closure_guarded :
+    startContainerConds = ["if wkr.state != StateRunning", "if wkr.wp.mTimeFromQueueToCrunchRun != nil",
+                           "if wkr.starting[ctr.UUID] != rr"] ∧
+    startContainerAssigns = ["wkr.starting[ctr.UUID] = rr", "wkr.state = StateRunning", "wkr.updated = now",
+                             "wkr.busy = now", "wkr.running[ctr.UUID] = rr", "wkr.lastUUID = ctr.UUID"] := ⟨rfl, rfl⟩
+
 /-- The quota back-off is a fixed minute (why quota scenarios get a longer deadline). -/
 theorem quota_ttl : "quotaErrorTTL = time.Minute" ∈ poolTimeConsts := by decide
 
